@@ -620,10 +620,11 @@ func TestC15(t *testing.T) {
 	files, explicit := vcore.ReplayFiles()
 	for _, f := range files {
 		var w struct {
-			A *CaseA `json:"a"`
-			B *CaseB `json:"b"`
-			C *CaseC `json:"c"`
-			D *CaseD `json:"close"`
+			A *CaseA  `json:"a"`
+			B *CaseB  `json:"b"`
+			C *CaseC  `json:"c"`
+			D *CaseD  `json:"close"`
+			E []EStep `json:"driver"`
 		}
 		if err := vcore.LoadReplayCase(f, &w); err != nil {
 			t.Fatalf("replay %s: %v", f, err)
@@ -648,11 +649,16 @@ func TestC15(t *testing.T) {
 			vcore.E.Eval()
 			vcore.Report(t, runD(*w.D), map[string]any{"close": w.D})
 		}
+		if w.E != nil {
+			vcore.E.Eval()
+			vcore.Report(t, runE(w.E), map[string]any{"driver": w.E})
+		}
 	}
 	if explicit {
 		return
 	}
 	closePart(t)
+	driverPart(t)
 	vcore.Check(t, vcore.N(500, 9000), func(rt *rapid.T) {
 		c := genA(rt)
 		v, s := runA(c)
